@@ -265,7 +265,7 @@ static std::string read_file(const std::string &path) { std::ifstream f(path, st
 int main(int argc, char **argv)
 {
 	if (!getenv("VERIF_REEXEC")) { setenv("VERIF_REEXEC", "1", 1); setenv("ASAN_OPTIONS", "detect_leaks=1:exitcode=77:allocator_may_return_null=1:external_symbolizer_path=/usr/bin/llvm-symbolizer-14", 1); setenv("UBSAN_OPTIONS", "print_stacktrace=1:halt_on_error=1", 1); setenv("LSAN_OPTIONS", "exitcode=0", 1); execv("/proc/self/exe", argv); }
-	std::string out, replay, mode = "random", known_file = getenv("C19_KNOWN") ? getenv("C19_KNOWN") : "/verif/KNOWN_FINDINGS.jsonl"; long cases = 1000; unsigned long seed = 1; int size = 60;
+	std::string out, replay, mode = "random", known_file = getenv("C19_KNOWN") ? getenv("C19_KNOWN") : std::string(getenv("VERIF_ROOT") ? getenv("VERIF_ROOT") : "/verif") + "/KNOWN_FINDINGS.jsonl"; long cases = 1000; unsigned long seed = 1; int size = 60;
 	for (int i = 1; i < argc; i++) {
 		std::string a = argv[i];
 		auto next = [&]() { return i + 1 < argc ? std::string(argv[++i]) : std::string(); };
@@ -331,7 +331,7 @@ int main(int argc, char **argv)
 	});
 	if (!ok && have) {
 		js::Value v = js::Value::obj(); v.set("signature", js::Value::str(lastr.sig)); v.set("detail", js::Value::str(lastr.crashed ? lastr.err.substr(0, 3000) : lastr.fail)); v.set("case", case_json(last));
-		std::string dir = "/verif/replays/C19/found"; std::string cmd = "mkdir -p " + dir; if (system(cmd.c_str())) {}
+		std::string dir = std::string(getenv("VERIF_ROOT") ? getenv("VERIF_ROOT") : "/verif") + "/replays/C19/found"; std::string cmd = "mkdir -p " + dir; if (system(cmd.c_str())) {}
 		char name[40]; snprintf(name, sizeof name, "%016llx", (unsigned long long)scen::fnv(js::dump(case_json(last))));
 		std::string path = dir + "/" + name + ".json"; { std::ofstream f(path); f << js::dump(v); }
 		v.set("replay", js::Value::str(path)); violations.push_back(v);
